@@ -130,6 +130,8 @@ MUTANTS = [
     ("live_minus_2", "C17", DEC, "            self.acs[icao][\"live\"] = int(t)\n\n            if 1 <= tc <= 4:", "            self.acs[icao][\"live\"] = int(t) - 2\n\n            if 1 <= tc <= 4:", 1),
     ("commb_live_backwards", "C17", DEC, "max(self.acs[icao][\"live\"], int(t))", "int(t)", 1),
     ("run_clears_before_processing", "C17", DEC, "                for data in local_buffer:\n", "                pending, local_buffer = local_buffer, []\n                for data in pending[:-1] if len(pending) > 2 else pending:\n", 1),
+    ("commb_stale_local", "C17", DEC, "                if tas50:\n                    self.acs[icao][\"tas\"] = tas50\n",
+     "                tas50 = tas50 or getattr(self, \"_last_tas\", None)\n                self._last_tas = tas50\n                if tas50:\n                    self.acs[icao][\"tas\"] = tas50\n", 1),
     ("icao_case_regression", "C17", PYC, "addr = msg[2:8].upper()", "addr = msg[2:8]", 1),
     ("nucp_table_hole", "C17", UNC, "    17: 1,\n    18: 0,\n    20: 9,", "    17: 1,\n    20: 9,", 1),
     ("cprnl_off_by_one_band", "C17", PYC, "    NL = floor(nl)\n    return NL", "    NL = floor(nl)\n    if NL == 37:\n        NL = 36\n    return NL", 1),
